@@ -9,4 +9,6 @@ mod c24;
 #[cfg(kani)]
 mod c22;
 #[cfg(kani)]
-mod probe;
+mod c21;
+#[cfg(kani)]
+mod c09;
